@@ -182,7 +182,8 @@ def execute(scn: dict) -> dict:
     if fault is None and member > 0:
         if 1 <= member <= 4:
             at = max(1, min(S, ((member - 1) * S) // 4 + frng.randrange(1, max(2, S // 4))))
-            fault = {"kind": "kill_child", "at": at}
+            # killed from outside: SIGKILL (OOM killer), SIGTERM (batch scheduler, container stop), SIGSEGV
+            fault = {"kind": "kill_child", "at": at, "sig": frng.choice([9, 15, 15, 11])}
         elif member == 5:
             fault = {"kind": "child_raises", "q": frng.randrange(0, max(1, Q))} if backend == "scripted" else {"kind": "kill_child", "at": frng.randrange(1, max(2, S))}
         elif member == 6:
@@ -217,7 +218,7 @@ def execute(scn: dict) -> dict:
         kind = fault["kind"]
         probe(kind)
         if kind == "kill_child":
-            kfaults.append({"kind": "kill_child", "at": fault["at"]})
+            kfaults.append({"kind": "kill_child", "at": fault["at"], "sig": fault.get("sig", 9)})
             child_fault = True
         elif kind == "child_raises":
             fs["configs"][0]["optimizer"]["options"]["raise_at"] = fault["q"]
@@ -288,7 +289,7 @@ def execute(scn: dict) -> dict:
             if k.fired.get("kill_child") and hb.get("child_syscalls_at_eval"):
                 pass
             if ex is not None and ex[0] == "ret" and ex[2] == int(OptimizerExitCode.OPTIMIZER_STEP_FINISHED):
-                viol.append({"clause": "child-fault-reported-as-success", "sig": {"fault": sig_fault},
+                viol.append({"clause": "child-fault-reported-as-success", "sig": {"fault": sig_fault, "signal": (fault or {}).get("sig")},
                              "detail": f"fault {fault} (child status {child.status if child else None}): the step returned OPTIMIZER_STEP_FINISHED"})
         elif fault is not None and fault["kind"] == "evaluator_raises_after_child_died":
             raised = ctx is not None and any(c.raised == "raise" for c in ctx.evaluator.calls)
@@ -338,7 +339,10 @@ def execute(scn: dict) -> dict:
         "key": f"{H(str(key)):016x}",
         "probes": probes,
         "fired": fired,
-        "digest": (harness.trace_digest(ctx) if ctx is not None else "none") + f":{k.steps}:{k.clock:.9f}:{child.status if child else None}:{outcome}",
+        # full trace + schedule digest with the scripted child; with a real SciPy algorithm in the child only
+        # the outcome is digested (SciPy's iterates are not bit-reproducible between interpreters, see DESIGN 8.2)
+        "digest": ((harness.trace_digest(ctx) if ctx is not None else "none") + f":{k.steps}:{k.clock:.9f}:{child.status if child else None}:{outcome}")
+        if backend == "scripted" else f"real:{sig_fault}:{outcome.split(':')[0]}",
         "evals": len(ctx.evaluator.calls) if ctx else 0,
         "events": len(ctx.events) if ctx else 0,
         "sim_time": k.clock,
